@@ -158,8 +158,10 @@ def main(chk: Check):
     kinds = {}
     npoints = 0
     prop_bad = []
-    for i in range(ncases):
-        case = c18.gen_case(chk.rng, root_user)
+    todo = c18.corpus_cases(chk) + [None] * ncases       # C18's corpus (pinned shapes) first
+    for i, case in enumerate(todo):
+        if case is None:
+            case = c18.gen_case(chk.rng, root_user)
         for e in case["cset"]:
             if e["kind"] == "file" and len(e["data"]) > 7:
                 e["data"] = e["data"][:7]
